@@ -1,3 +1,4 @@
 import HpoProofs.Group
 import HpoProofs.TermId
 import HpoProofs.Binary
+import HpoProofs.BinaryLoad
